@@ -90,7 +90,10 @@ def execute(plan):
     iters = []
 
     def on_state(act, rec, state):
-        rec["iter"] = len(act.ls_log)  # one line search per iteration: the true iteration number
+        # user evaluations made before this callback: identifies the iteration independently of how
+        # the solver counts (the run with maxiter=k that stops right here has made exactly as many)
+        rec["evals_before"] = int(act.counts["fun"] + act.counts["jac"])
+        rec["iter"] = None
         rec["eager"] = pickle.dumps(state, protocol=4)
 
     c = dict(cfg)
@@ -128,8 +131,8 @@ def execute(plan):
 
     # ---- uninterrupted references R_k
     R = {}
-    kmax = max([r["iter"] for r in A.states], default=0)
-    for k in range(1, min(kmax, K) + 3):
+    last_needed = max([r["evals_before"] for r in A.states], default=0)
+    for k in range(1, K + 3):
         ck = dict(cfg)
         ck["callback"] = None
         ck["maxiter"] = k
@@ -138,12 +141,21 @@ def execute(plan):
         if a.result is None:
             break
         R[k] = a
+        if int(a.counts["fun"] + a.counts["jac"]) > last_needed and k >= 2 and (k - 2) in R and int(R[k - 2].counts["fun"] + R[k - 2].counts["jac"]) > last_needed:
+            break  # two references beyond the last callback are enough
+    by_evals = {}
+    for k in sorted(R):
+        by_evals.setdefault(int(R[k].counts["fun"] + R[k].counts["jac"]), k)
+    for rec in A.states:
+        rec["iter"] = by_evals.get(rec["evals_before"])
+        if rec["iter"] is None:
+            stats["nj.state_without_reference_run"] += 1
 
     # ---- (a) snapshot fidelity and (b) immutability
     for rec in A.states:
         k = rec["iter"]
         stats["or.snapshot"] += 1
-        if k in R:
+        if k is not None and k in R:
             bad = snap_diff(rec["snap"], snapshot(R[k].result))
             for fld in bad:
                 w = {"k": k, "field": fld}
@@ -210,6 +222,8 @@ def execute(plan):
         rec = A.states[n_states - 1]
         k = rec["iter"]
         in_ls = bool(D.fired["crash_in_ls"])
+        if k is None:
+            continue
         if scaler:
             stats["nj.recovery_with_scaler"] += 1
             key("crash", kind, actor, in_ls, k, "scaler")
